@@ -69,6 +69,7 @@ static const char* HOT_FUNCS[] = {
   "mi_thread_data_zalloc", "mi_thread_data_free", "_mi_page_queue_append", "mi_free_block_mt", "_mi_segment_attempt_reclaim", "mi_free",
   "mi_arena_segment_os_clear_abandoned", "mi_arena_segment_os_mark_abandoned", "mi_arena_schedule_purge", "mi_arenas_try_purge",
   "_mi_segment_map_allocated_at", "_mi_segment_map_freed_at", "mi_segment_map_index_of", "mi_arena_segment_clear_abandoned_next_field",
+  "os_call", "os_call",
 };
 
 static void sample_sched(G& g, SimConfig& c, bool multi) {
@@ -253,7 +254,15 @@ static void fam_c01_pagecycle(G& g, Plan& p) {
     size_t per_page = (64 * KiB) / b; if (per_page < 1) per_page = 1;
     size_t n = per_page * (1 + g.below(3)) + g.below(per_page); if (n > 580) n = 580;
     int zero = g.chance(0.2);
-    for (size_t i = 0; i < n; i++) P.ops.push_back(mk(zero ? OP_zalloc : OP_malloc, (int)i, req));
+    const bool with_aligned = g.chance(0.5) && req >= 32;
+    for (size_t i = 0; i < n; i++) {
+      if (with_aligned && g.chance(0.08)) {   // an over-allocated block of the same class whose pointer lies inside it
+        size_t al = (size_t)1 << (4 + g.below(4)); size_t off = 8 * (1 + g.below(3));
+        size_t sz = req > al + 16 ? req - al - 8 : 8;
+        P.ops.push_back(g.chance(0.5) ? mk(OP_malloc_aligned_at, (int)i, sz, al, off) : mk(OP_malloc_aligned, (int)i, sz, al * 2));
+      }
+      else P.ops.push_back(mk(zero ? OP_zalloc : OP_malloc, (int)i, req));
+    }
     int order = (int)g.below(4); size_t stride = 2 + g.below(7);
     std::vector<int> idx; for (size_t i = 0; i < n; i++) idx.push_back((int)i);
     if (order == 1) std::reverse(idx.begin(), idx.end());
@@ -416,6 +425,8 @@ static void fam_c02_hugeremote(G& g, Plan& p) {
     else P0.ops.push_back(mk(g.chance(0.2) ? OP_zalloc : OP_malloc, i, sz));
   }
   spawn_all(p, nt, true, g);
+  if (g.chance(0.7)) { p.cfg.strategy = ST_TARGETED; p.cfg.hot_p = g.pick({0.3, 0.7}); p.cfg.switch_p = 0.0; p.cfg.hot_funcs = {"os_call", "mi_free_block_mt", "mi_free_block_delayed_mt", "_mi_heap_delayed_free_partial"}; }
+  for (int i = 0; i < n; i++) if (g.chance(0.6)) { P0.ops.push_back(mk(OP_collect, -1, g.below(2))); Op o = p.progs[0].ops[(size_t)i]; o.slot = 10 + (int)g.below(6); if (o.code == OP_malloc_aligned) o.code = OP_malloc; P0.ops.push_back(o); }
   for (int i = 0; i < 20; i++) { int k = (int)g.below(4); P0.ops.push_back(k == 0 ? mk(OP_collect, -1, g.below(2)) : k == 1 ? mk(OP_malloc, 10 + (int)g.below(6), gen_size(g, SM_SMALL | SM_LARGE)) : k == 2 ? mk(OP_free, (int)g.below(16)) : mk(OP_malloc, (int)g.below((uint64_t)n), gen_size(g, SM_HUGE))); }
   for (int t = 1; t < nt; t++) for (int i = 0; i < n; i++) if (g.chance(0.7)) p.progs[(size_t)t].ops.push_back(mk(OP_free, (int)g.below((uint64_t)n)));
 }
@@ -473,7 +484,6 @@ static void fam_c08_prodcons(G& g, Plan& p) {
   for (int r = 0; r < R; r++) {
     P0.ops.push_back(mk(OP_malloc, r % L, cls[(size_t)r % cls.size()]));
     if (r % 50 == 49) P0.ops.push_back(mk(OP_pc_sample, -1, bound, (uint64_t)L));
-    if (g.chance(0.002)) P0.ops.push_back(mk(OP_collect, -1, 0));
   }
   for (int c = 1; c <= ncons; c++) for (int r = 0; r < R; r++) p.progs[(size_t)c].ops.push_back(mk(OP_free, (r * ncons + c - 1) % L));
   for (int c = 1; c <= ncons; c++) P0.ops.push_back(mk(OP_join, c));
@@ -596,7 +606,12 @@ static void fam_c10_single(G& g, Plan& p) {
 
 // remotes free blocks of heap H while the owner deletes / collects / destroys heaps or exits
 static void fam_c10_concurrent(G& g, Plan& p) {
-  int nt = 2 + (int)g.below(3);
+  int nt = 2 + (int)g.below(4);
+  if (g.chance(0.6)) {   // aim at the window between a remote's DELAYED_FREEING CAS and its push while the owner deletes the heap
+    p.cfg.strategy = ST_TARGETED; p.cfg.hot_p = g.pick({0.3, 0.6, 0.9}); p.cfg.switch_p = g.pick({0.0, 0.002});
+    p.cfg.hot_funcs = {"mi_free_block_delayed_mt", "_mi_page_try_use_delayed_free", "_mi_page_use_delayed_free", "_mi_page_queue_append", "_mi_heap_delayed_free_partial"};
+    if (nt < 3) nt = 3 + (int)g.below(3);
+  }
   size_t req = class_req(g, 40);
   size_t per_page = (64 * KiB) / (req + 16); if (per_page > 150) per_page = 150; if (per_page < 2) per_page = 2;
   int n = (int)per_page * (1 + (int)g.below(2)) + (int)g.below(per_page);
@@ -821,6 +836,26 @@ static void fam_c04_dirty(G& g, Plan& p) {
   P0.ops.push_back(mk(OP_verify_all));
 }
 
+// huge blocks: dirty memory handed back by the arena, zeroing allocation, then growth inside the slack of the huge page
+static void fam_c04_hugeslack(G& g, Plan& p) {
+  p.nslots = 20; p.progs.resize(1); Program& P = p.progs[0];
+  set_env(p, "PURGE_DELAY", g.pick({10, 100, -1}));      // freed arena blocks are not purged right away
+  p.cfg.madv_free_mode = 0;
+  int rounds = 1 + (int)g.below(3);
+  for (int r = 0; r < rounds; r++) {
+    size_t S1 = 17 * MiB + g.below(40 * MiB);
+    Op d = mk(OP_malloc, 0, S1); d.flags = OPF_FULL_FILL; P.ops.push_back(d);     // every byte dirty
+    P.ops.push_back(mk(OP_free, 0));
+    size_t S2 = S1 - g.below(900 * KiB);
+    int v = (int)g.below(4);
+    Op z = (v == 0) ? mk(OP_zalloc, 1, S2) : (v == 1) ? mk(OP_calloc, 1, 1, S2) : (v == 2) ? mk(OP_rezalloc, 1, S2) : mk(OP_zalloc_aligned, 1, S2, 64);
+    P.ops.push_back(z);
+    int steps = 1 + (int)g.below(4); size_t sz = S2;
+    for (int k = 0; k < steps; k++) { sz += 4096 + g.below(300 * KiB); P.ops.push_back(g.chance(0.5) ? mk(OP_rezalloc, 1, sz) : mk(OP_recalloc, 1, 1, sz)); }
+    P.ops.push_back(mk(OP_free, 1));
+  }
+}
+
 // monotone growth chains starting from a zeroing allocation
 static void fam_c04_grow(G& g, Plan& p) {
   p.nslots = 60; p.progs.resize(1); Program& P = p.progs[0];
@@ -832,6 +867,9 @@ static void fam_c04_grow(G& g, Plan& p) {
     for (int i = 0; i < (int)g.below(20); i++) { int s = 20 + (int)g.below(30); P.ops.push_back(g.chance(0.6) ? mk(OP_malloc, s, gen_size(g, SM_SMALL | SM_MEDIUM)) : mk(OP_free, s)); }
     size_t sz = g.chance(0.7) ? 1 + g.below(200) : gen_size(g, SM_SMALL | SM_MEDIUM);
     int hs = g.chance(0.3) ? 0 : -1;
+    { int nd = 1 + (int)g.below(6); size_t cap = sz + sz / 8 + 16;      // same size class, written over their whole usable size, then freed
+      for (int i = 0; i < nd; i++) { Op o = mk(OP_malloc, 50 + i, sz + g.below(cap - sz)); o.hslot = hs; P.ops.push_back(o); }
+      for (int i = 0; i < nd; i++) if (g.chance(0.8)) P.ops.push_back(mk(OP_free, 50 + i)); }
     P.ops.push_back(gen_zero_alloc(g, slot, sz, hs));
     int steps = 2 + (int)g.below(12);
     size_t al = g.chance(0.3) ? (size_t)1 << (4 + g.below(10)) : 0;
@@ -982,6 +1020,7 @@ static void c07_tail(G& g, Plan& p, Program& P0) {
 
 static void fam_c07_base(G& g, Plan& p) {
   int variant = (int)(p.seed % 10);
+  const bool lazy_exit = (variant == 5 && ((p.seed / 10) % 2) == 1);   // thread exit + lazily committed memory: reclaimed spans need a commit
   p.cfg.strategy = ST_NONE; p.cfg.harness_p = 0; p.cfg.spurious_p = 0; p.cfg.tick_ns = 0;
   p.cfg.place_policy = 0; p.cfg.madv_free_mode = 1; p.cfg.overcommit = 0; p.cfg.thp_einval = 0; p.cfg.entropy_fail = 0;
   p.env.clear();
@@ -989,6 +1028,7 @@ static void fam_c07_base(G& g, Plan& p) {
   p.nslots = 120; p.progs.resize(variant == 5 ? 2 : 1);
   Program& P0 = p.progs[0];
   if (variant == 6) set_env(p, "ARENA_RESERVE", "64MiB");
+  if (lazy_exit) { set_env(p, "ARENA_RESERVE", "0"); set_env(p, "EAGER_COMMIT", 0); }
   if (variant == 7) p.cfg.overcommit = 2;
   if (variant == 8) set_env(p, "ARENA_EAGER_COMMIT", 0);
   if (variant == 9) set_env(p, "EAGER_COMMIT", 0);
@@ -1191,6 +1231,7 @@ static const FamilyDef FAMILIES[] = {
   {"c03_align", "C03", fam_c03_align, 1, false},
   {"c04_dirty", "C04", fam_c04_dirty, 1, true},
   {"c04_grow", "C04", fam_c04_grow, 1, false},
+  {"c04_hugeslack", "C04", fam_c04_hugeslack, 0, false},
   {"c05_realloc", "C05", fam_c05_realloc, 1, false},
   {"c06_badreq", "C06", fam_c06_badreq, 1, false},
   {"c06_wellformed", "C06", fam_c06_wellformed, 1, false},
